@@ -11,7 +11,38 @@ ZERO = z3.BitVecVal(0, W)
 ONES = z3.BitVecVal(255, W)
 
 
+class LV:
+    """lane value: a z3 BitVec(8) wrapped so that DATA-DEPENDENT control flow in the code under test (e.g. a fast path guarded by
+    `mask.any()`) forks in the E2 engine instead of crashing; the unmodified simulators never ask for a truth value (one path)."""
+    __slots__ = ('e',)
+    __array_ufunc__ = None
+    __hash__ = None
+
+    def __init__(self, e): self.e = e
+    def _o(self, o): return o.e if isinstance(o, LV) else (o if z3.is_bv(o) else z3.BitVecVal(int(o) & 0xff, W))
+    def __and__(self, o): return LV(self.e & self._o(o))
+    __rand__ = __and__
+    def __or__(self, o): return LV(self.e | self._o(o))
+    __ror__ = __or__
+    def __xor__(self, o): return LV(self.e ^ self._o(o))
+    __rxor__ = __xor__
+    def __invert__(self): return LV(~self.e)
+    def __lshift__(self, o): return LV(self.e << self._o(o))
+    def __rshift__(self, o): return LV(z3.LShR(self.e, self._o(o)))
+    def __eq__(self, o): return _branch(self.e == self._o(o))
+    def __ne__(self, o): return _branch(self.e != self._o(o))
+    def __bool__(self): return _branch(self.e != 0)
+    def __repr__(self): return f'LV({self.e})'
+
+
+def _branch(cond):
+    from . import engine
+    if engine.ENG is None or not hasattr(engine.ENG, 'log'): raise RuntimeError('data-dependent control flow on lane values outside an exploration')
+    return engine.ENG.branch(cond)
+
+
 def bv(x):
+    if isinstance(x, LV): return x.e
     if z3.is_bv(x): return x
     return z3.BitVecVal(int(x) & 0xff, W)
 
@@ -36,20 +67,20 @@ def symbolize(sim, tag='i', garbage=True, gtag=None):
     nbytes = sim.c.shape[-1]
     ins = {}
     s = np.empty(sim.s.shape, dtype=object)
-    for idx in np.ndindex(sim.s.shape): s[idx] = z3.BitVecVal(int(sim.s[idx]), W)
+    for idx in np.ndindex(sim.s.shape): s[idx] = LV(z3.BitVecVal(int(sim.s[idx]), W))
     for i in range(sim.s_len):
         for p in range(3):
             for b in range(nbytes):
                 v = z3.BitVec(f'{tag}{i}_p{p}_b{b}', W)
-                s[0, i, p, b] = v
+                s[0, i, p, b] = LV(v)
                 ins[(i, p, b)] = v
     c = np.empty(sim.c.shape, dtype=object)
     zloc = int(sim.c_locs[sim.zero_idx])
     for idx in np.ndindex(sim.c.shape):
         if garbage and idx[0] != zloc:
-            c[idx] = z3.BitVec(f'{gtag or tag}g{idx[0]}_{idx[1]}_{idx[2]}', W)
+            c[idx] = LV(z3.BitVec(f'{gtag or tag}g{idx[0]}_{idx[1]}_{idx[2]}', W))
         else:
-            c[idx] = z3.BitVecVal(int(sim.c[idx]), W)
+            c[idx] = LV(z3.BitVecVal(int(sim.c[idx]), W))
     sim.s, sim.c = s, c
     return ins
 
@@ -66,10 +97,12 @@ def simulate(sim, inject_cb=None, use_cb_path=False):
 class Q:
     """tiny counting wrapper around z3.Solver"""
 
-    def __init__(self, rep, timeout_ms=120000):
+    def __init__(self, rep, timeout_ms=120000, eng=None):
         self.rep = rep
-        self.s = z3.Solver()
-        self.s.set('timeout', timeout_ms)
+        if eng is not None: self.s = eng.solver              # queries are decided under the current path condition of the exploration
+        else:
+            self.s = z3.Solver()
+            self.s.set('timeout', timeout_ms)
 
     def check(self, *extra):
         import time
@@ -91,3 +124,13 @@ def model_bytes(model, ins):
     for k, v in ins.items():
         out[k] = model.eval(v, model_completion=True).as_long()
     return out
+
+
+def explore(fn, rep):
+    """run fn(eng) once per feasible path of the code under test (normally exactly one); data-dependent branches on lane values fork"""
+    from .engine import Engine, EngineUnknown
+    eng = Engine(timeout_ms=120000, max_paths=256, deadline_s=60)
+    try: eng.explore(fn)
+    except EngineUnknown as e: rep.note(f'lane exploration not covered: {e} (data-dependent control flow multiplies paths; the unmodified simulators have exactly one)')
+    rep.counts['lane_paths'] += eng.npaths
+    return eng
